@@ -24,6 +24,7 @@ int main(int argc, char** argv) {
         in >> op;
         if (op.empty() || op[0] == '#') continue;
         std::ostringstream out;
+        const std::uint64_t aa0 = vtrack::g_aligned_allocs.load(), af0 = vtrack::g_aligned_frees.load();
         auto tk = [&in]() {
             std::string t;
             in >> t;
@@ -40,6 +41,8 @@ int main(int argc, char** argv) {
                 have_token = false;
             }
             fin();
+            nv2node.clear();
+            want_align.clear();
             out << "fin live=" << (vtrack::g_live_count.load() - base_live)
                 << " bytes=" << (vtrack::g_live_bytes.load() - base_bytes)
                 << " dfree=" << vtrack::g_double_free.load() << " mism=" << vtrack::g_size_mismatch.load();
@@ -270,6 +273,7 @@ int main(int argc, char** argv) {
             status s = put<char>(token, st, k, v.data(), v.size(), static_cast<char**>(nullptr),
                                  static_cast<value_align_type>(1), false, &info);
             if (found) snap(ti->load_root_ptr(), after);
+            if (s == status::OK) want_align[{st, k}] = 1;
             auto node_of = [&](node_version64* p) -> base_node* {
                 for (auto& kv : after)
                     if (kv.first->get_version_ptr() == p) return kv.first;
@@ -373,6 +377,9 @@ int main(int argc, char** argv) {
             out << " ]";
         } else {
             out << "?";
+        }
+        if (op == "put" || op == "rem" || op == "create" || op == "dropst" || op == "destroy" || op == "putinfo") {
+            out << " aa=" << (vtrack::g_aligned_allocs.load() - aa0) << " af=" << (vtrack::g_aligned_frees.load() - af0);
         }
         std::cout << out.str() << "\n";
     }
